@@ -43,9 +43,15 @@ template <typename O> struct OriginJson {
     }
 };
 template <> struct OriginJson<Zero> { static std::string get(Zero) { return "null"; } };
+
 template <typename U> std::string unit_origin_json() {
     auto o = detail::OriginOf<U>::value();
     return OriginJson<decltype(o)>::get(o);
+}
+// same, but ZERO is rendered as count 0 (for consumers that cannot take JSON null)
+template <typename U> std::string unit_origin_json0() {
+    std::string s = unit_origin_json<U>();
+    return s == "null" ? std::string("{\"count\":\"0\",\"mag\":[]}") : s;
 }
 template <typename U> std::string unit_json(const char *id) {
     return std::string("{\"id\":\"") + id + "\",\"dim\":" + unit_dim_json<U>() + ",\"mag\":" + unit_mag_json<U>() + ",\"origin\":" + unit_origin_json<U>() +
